@@ -10,12 +10,10 @@
    units.convert_expression_recursively(eq, None) turns into a numerically correct equation (C05).  Conversion
    equations and constants are stated in their NUMERIC reading (value in the variable's own unit).
 
-   Proved in full: C01_rep_chain(_invariant), C01_conversion_equation_SI, C01_flatten_sound.
-   Proved in part: C01_flatten_complete_partial (every solution of the flat system gives a solution of the document
-   when each variable takes the value of its representative; missing: that this valuation agrees with the flat
-   solution on the targets of unit-changing connections, which follows from the conversion equations by induction
-   along the chain and is not proved).
-   Not proved (tested by tools/props/c01.py only): the composition with C05 (C01_numeric_after_fix). *)
+   Proved in full: C01_rep_chain(_invariant), C01_conversion_equation_SI, C01_flatten_sound, C01_flatten_complete:
+   the document and the flat model have the same solutions on the document's variables.
+   Not proved (tested by tools/props/c01.py only): the composition with C05 (C01_numeric_after_fix: the numeric
+   reading after units.convert_expression_recursively), which is where the known finding F14 lives. *)
 From Coq Require Import List ZArith QArith Bool Reals Qreals.
 From Verif Require Import Sexp UnitAlg UnitAlgP Expr Eval Loader LoaderP C17P C01P.
 Import ListNotations.
@@ -55,17 +53,21 @@ Theorem C01_flatten_sound : forall fsem psem csem nu de d f,
 Proof. exact flatten_sound. Qed.
 Print Assumptions C01_flatten_sound.
 
-(* FULL STRENGTH (C01_flatten_complete): flat_sat f nu de -> doc_sat d (extend nu) (extend de), where extend changes
-   nu only on the targets that were substituted away (conversion factor 1).
-   Proved: with every variable given the SI value of its representative (the end of its mapping chain; rep_of is the
-   identity on every variable that is not the target of a connection) the document is satisfied: all component
-   equations, equal quantities across every connection, all constants.  init_no_in is the schema's guarantee that a
-   variable with an initial value has no `in` interface (cellml_1_0.rng, rule 3.4.3.8).
-   Missing for full strength: nu t = nu (rep_of m t) for the targets t of unit-changing connections. *)
-Theorem C01_flatten_complete_partial : forall fsem psem csem d f nu de, load d = OK f -> init_no_in f ->
+(* Conversely, every solution (nu, de) of the flat system IS a solution of the document once each variable is read
+   through its representative: nu' v = nu (rep_of m v), de' likewise (m = connected_variable_mapping).  nu' satisfies
+   every component equation over the component's own variables, makes both ends of every connection one physical
+   quantity (derivative atoms included) and gives every non-state its initial value; and nu' differs from nu only on
+   the variables that were substituted away: nu' v = nu (assigned_to v) for every variable -- so nu' v = nu v for
+   every source and for every target of a unit-changing connection (its conversion equation t = rep(t) * cf forces
+   the SI value of rep(t) on it, C01_conversion_equation_SI), and rep_of is the identity on every variable that is
+   not a target.  Together with C01_flatten_sound: the two systems have the same solutions on the document's variables.
+   init_no_in is not a guard on the code but the input domain of the model: the schema (cellml_1_0.rng, rule
+   3.4.3.8) refuses an initial value on a variable with an `in` interface before the loader runs. *)
+Theorem C01_flatten_complete : forall fsem psem csem d f nu de, load d = OK f -> init_no_in f ->
   flat_sat fsem psem csem nu de d f ->
   let m := rev (f_map f) in
   doc_sat fsem psem csem (fun i => nu (rep_of m i)) (fun i j => de (rep_of m i) (rep_of m j)) d /\
+  (forall v a, nth v (f_asg f) None = Some a -> nu (rep_of m v) = nu a) /\
   (forall i, lookup m i = None -> rep_of m i = i).
-Proof. exact flatten_complete_partial. Qed.
-Print Assumptions C01_flatten_complete_partial.
+Proof. exact flatten_complete. Qed.
+Print Assumptions C01_flatten_complete.
